@@ -6,9 +6,9 @@
    the outcomes, and so that the dumped state graph can be walked through the real package-level API (binding G):
    each node carries the call, the expected result and the expected observable state.                          *)
 EXTENDS Registry, TLC
-CONSTANTS NInst, MaxFaults, Depth, Slow, HandleInst
-VARIABLES s, res, call, flt
-vars == <<s, res, call, flt>>
+CONSTANTS NInst, MaxFaults, Depth, Slow, HandleInst, Lean     \* Lean: fewer query values, no alias functions (InPort = InByNumber ...)
+VARIABLES s, res, call, flt, obs, nc  \* obs = RgObs(s): what the environment can see (for the walk); nc = calls made so far
+vars == <<s, res, call, flt, obs, nc>>
 
 cA == 97  cB == 98  cC == 99  cX == 120
 FullLay == <<
@@ -20,11 +20,12 @@ FullLay == <<
                  outs |-> <<[num |-> 1, name |-> <<cA>>], [num |-> 0, name |-> <<cA, cB>>]>>] >>
 Lay == SubSeq(FullLay, 1, NInst)
 HandleOne == {1}  HandleTwo == {1, 2}  HandleAll == {1, 2, 3}
+ASSUME PrintT(<<"X05LAYOUT", Lay>>)      \* the walk configures the fake drivers from this line of TLC's output
 C == [lay |-> Lay, flt |-> flt]
 C0 == [lay |-> Lay, flt |-> {}]
 
-Numbers == {-1, 0, 1, 2}
-Names   == {<<>>, <<cA>>, <<cB>>, <<cC>>, <<cB, cC>>, <<cX>>}
+Numbers == IF Lean THEN {-1, 0, 2} ELSE {-1, 0, 1, 2}
+Names   == IF Lean THEN {<<>>, <<cA>>, <<cB>>} ELSE {<<>>, <<cA>>, <<cB>>, <<cC>>, <<cB, cC>>, <<cX>>}
 Ports   == RgAllPorts(C0)
 HPorts  == {p \in Ports : p.d \in HandleInst}       \* ports the user also holds directly (from the driver object)
 Flags   == {[f |-> "list", p |-> RgPort(k, d, 0)] : k \in {"in", "out"}, d \in 1..NInst}
@@ -37,8 +38,8 @@ Msg == <<144, 60, 100>>
 Mk(fn, d, p, n, q) == [fn |-> fn, d |-> d, p |-> p, n |-> n, q |-> q, msg |-> IF fn = "Send" THEN Msg ELSE <<>>]
 Calls ==
   {Mk("Register", d, RgNoPort, 0, <<>>) : d \in 1..NInst}
-  \cup {Mk(fn, 0, RgNoPort, 0, <<>>) : fn \in {"Get", "DriversClose", "CloseDriver", "Ins", "Outs", "GetInPorts", "GetOutPorts"}}
-  \cup {Mk(fn, 0, RgNoPort, n, <<>>) : fn \in {"InByNumber", "OutByNumber", "InPort", "OutPort"}, n \in Numbers}
+  \cup {Mk(fn, 0, RgNoPort, 0, <<>>) : fn \in {"Get", "CloseDriver", "Ins", "Outs", "GetInPorts", "GetOutPorts"} \cup (IF Lean THEN {} ELSE {"DriversClose"})}
+  \cup {Mk(fn, 0, RgNoPort, n, <<>>) : fn \in {"InByNumber", "OutByNumber"} \cup (IF Lean THEN {} ELSE {"InPort", "OutPort"}), n \in Numbers}
   \cup {Mk(fn, 0, RgNoPort, 0, q) : fn \in {"InByName", "OutByName", "FindInPort", "FindOutPort"}, q \in Names}
   \cup {Mk(fn, 0, p, 0, <<>>) : fn \in {"SendTo", "Send"}, p \in {q \in HPorts : q.k = "out"}}
   \cup {Mk(fn, 0, p, 0, <<>>) : fn \in {"ListenTo", "TrackRecordFrom", "Stop", "Inject"} \cup (IF Slow THEN {"SmfRecordFrom", "RecordTo"} ELSE {}),
@@ -46,20 +47,21 @@ Calls ==
   \cup {Mk("PortClose", 0, p, 0, <<>>) : p \in HPorts}
 
 NoCall == Mk("none", 0, RgNoPort, 0, <<>>)
-Init == s = Rg0 /\ res = RgR0 /\ call = NoCall /\ flt \in FaultSets
+Init == s = Rg0 /\ res = RgR0 /\ call = NoCall /\ flt \in FaultSets /\ obs = RgObs(Rg0) /\ nc = 0
 Next == \E cl \in Calls :
+          /\ nc < Depth /\ nc' = nc + 1          \* sequences of at most Depth calls
           /\ RgEnabled(C, s, cl)
-          /\ \E o \in RgOutcomes(C, s, cl) : s' = o.s /\ res' = o.res
+          /\ \E o \in RgOutcomes(C, s, cl) : s' = o.s /\ res' = o.res /\ obs' = RgObs(o.s)
           /\ call' = cl /\ UNCHANGED flt
 Spec == Init /\ [][Next]_vars
-Bounded == TLCGet("level") <= Depth
 
 \* ---------------------------------------------------------------- invariants (state: the call that led here, its result)
 Drv(d) == Lay[d]
 PCfg(p) == RgPorts(C, p.k, p.d)[p.i]
 FirstD == IF s.reg = <<>> THEN 0 ELSE s.reg[1].d
 
-TypeOK == /\ s.open \subseteq Ports /\ s.snd \subseteq Ports
+TypeOK == /\ obs = RgObs(s)
+          /\ s.open \subseteq Ports /\ s.snd \subseteq Ports
           /\ \A h \in s.hs : h.p \in Ports /\ h.p.k = "in" /\ h.id \in 1..s.nl /\ h.cnt >= 0
           /\ \A i \in 1..Len(s.reg) : s.reg[i].d \in 1..NInst /\ Drv(s.reg[i].d).name = s.reg[i].name
           /\ res.ret \in {"nil", "err"}
